@@ -357,6 +357,10 @@ class VectorSplineFit(Contract):
             {"rank": 1, "weights": False, "damping": True, "force_coords": True},
             {"rank": 1, "weights": False, "damping": False, "force_coords": False, "ncomp": 3},
             {"rank": 1, "weights": False, "damping": False, "force_coords": False, "ncomp": 1},
+            # components of different dtypes (an integer-valued east component next to a float north one, and so on)
+            {"rank": 1, "weights": False, "damping": False, "force_coords": False, "dkinds": "if"},
+            {"rank": 1, "weights": True, "damping": True, "force_coords": False, "dkinds": "fi"},
+            {"rank": 2, "weights": False, "damping": False, "force_coords": False, "dkinds": "ii"},
         ]
 
     def setup(self, B, cfg):
@@ -369,7 +373,7 @@ class VectorSplineFit(Contract):
         est.force_coords = (B.array("fc_e", (nf,)), B.array("fc_n", (nf,))) if cfg["force_coords"] else None
         coords = _coords(B, cfg["rank"], 0, minsize=1)
         ncomp = cfg.get("ncomp", 2)
-        data = tuple(B.array("data%d" % k, coords[0].shape) for k in range(ncomp))
+        data = tuple(B.array("data%d" % k, coords[0].shape, cfg.get("dkinds", "fff")[k]) for k in range(ncomp))
         w = tuple(B.array("w%d" % k, coords[0].shape) for k in range(ncomp)) if cfg["weights"] else None
         est._given_force_coords = est.force_coords
         return (est, coords, data), dict(weights=w)
@@ -397,7 +401,11 @@ class VectorSplineFit(Contract):
                 arrs = tuple(x.reshape(2, -1) for x in arrs)
             elif n == 9:
                 arrs = tuple(x.reshape(3, 3) for x in arrs)
-            yield (est, arrs[:2], (arrs[2], arrs[3])), dict(weights=rng.choice([None, (np.abs(arrs[4]) + 0.1, np.abs(arrs[5]) + 0.1)]))
+            data = [arrs[2], arrs[3]]
+            for k in (0, 1):  # integer-valued components given with an integer dtype (each one independently)
+                if rng.random() < 0.35:
+                    data[k] = np.round(10 * data[k]).astype(rng.choice(["int64", "int32"]))
+            yield (est, arrs[:2], tuple(data)), dict(weights=rng.choice([None, (np.abs(arrs[4]) + 0.1, np.abs(arrs[5]) + 0.1)]))
 
     tol = (1e-5, 1e-7)
 
